@@ -17,6 +17,9 @@ struct Case {
     label: String,
     /// the Eco (HTTP) entry point does not go through the socket seam: hostile raw HTTP replies over loopback
     eco_http: bool,
+    /// Some(k): the server answers request k and every later request with the reply it gave to request k (a stuck server:
+    /// the same challenge, the same page, the same part again and again)
+    stuck_at: Option<usize>,
     target: Target,
     retries: usize,
     first: MenuKind,
@@ -42,6 +45,7 @@ fn build(tier: Tier) -> Vec<Case> {
             v.push(Case {
                 label: format!("{} retries={retries} X(1) {first:?}", t.name),
                 eco_http: false,
+                stuck_at: None,
                 target: t.clone(),
                 retries,
                 first,
@@ -57,6 +61,7 @@ fn build(tier: Tier) -> Vec<Case> {
             v.push(Case {
                 label: format!("{} retries=0 X(2) structural extremes only", t.name),
                 eco_http: false,
+                stuck_at: None,
                 target: t.clone(),
                 retries: 0,
                 first: MenuKind::Reduced,
@@ -69,6 +74,7 @@ fn build(tier: Tier) -> Vec<Case> {
             v.push(Case {
                 label: format!("{} retries=0 X(2) Reduced+Second", t.name),
                 eco_http: false,
+                stuck_at: None,
                 target: t.clone(),
                 retries: 0,
                 first: MenuKind::Reduced,
@@ -78,9 +84,28 @@ fn build(tier: Tier) -> Vec<Case> {
             });
         }
     }
+    for t in protocol_targets() {
+        if !full_family(&t) {
+            continue;
+        }
+        for k in 0 .. 4usize {
+            v.push(Case {
+                label: format!("{} stuck server: the reply to request {k} is repeated for every later request", t.name),
+                eco_http: false,
+                stuck_at: Some(k),
+                target: t.clone(),
+                retries: if k % 2 == 0 { 0 } else { 2 },
+                first: MenuKind::Reduced,
+                after: None,
+                tail_len: 1,
+                extremes_only: false,
+            });
+        }
+    }
     v.push(Case {
         label: "eco::query_with_timeout: hostile raw HTTP replies over loopback".into(),
         eco_http: true,
+        stuck_at: None,
         target: protocol_targets().into_iter().next().unwrap(),
         retries: 0,
         first: MenuKind::Reduced,
@@ -92,6 +117,7 @@ fn build(tier: Tier) -> Vec<Case> {
         v.push(Case {
             label: format!("{} X(1) Reduced", t.name),
             eco_http: false,
+                stuck_at: None,
             target: t,
             retries: 0,
             first: MenuKind::Reduced,
@@ -157,8 +183,20 @@ impl Prop for C01 {
             run_eco_hostile(ctx, &case.label);
             return;
         }
-        let bound = if case.after.is_some() { 2 } else { 1 };
         let tag = case.target.name.split(' ').next().unwrap_or("").to_string();
+        if let Some(k) = case.stuck_at {
+            let server = Box::new(Stuck { inner: (case.target.server)(), k, seen: 0, frozen: None });
+            let call = case.target.call.clone();
+            let ts = timeouts(case.retries);
+            let x = run_query(server, Box::new(crate::vnet::Faithful), Chooser::new(&[]), || call(ts));
+            ctx.account(&x, 0);
+            if check_total(ctx, &x, &format!("{tag}:stuck-server")) {
+                ctx.distinct_key(&(case.label.clone(), x.outcome.class(), x.log.len()));
+                ctx.sample(serde_json::json!({"case": case.label, "outcome": x.outcome.class(), "wire_events": x.log.len()}));
+            }
+            return;
+        }
+        let bound = if case.after.is_some() { 2 } else { 1 };
         explore(
             ctx,
             &ExploreCfg::bound(bound),
@@ -277,3 +315,31 @@ fn run_eco_hostile(ctx: &mut Ctx, label: &str) {
     }
     ctx.sample(serde_json::json!({"case": label, "raw_http_replies": n}));
 }
+
+
+/// Answers request `k` and every later request with the reply the real server gave to request `k`.
+struct Stuck {
+    inner: Box<dyn crate::vnet::Responder>,
+    k: usize,
+    seen: usize,
+    frozen: Option<Vec<Vec<u8>>>,
+}
+
+impl crate::vnet::Responder for Stuck {
+    fn accept(&mut self, tcp: bool, addr: &std::net::SocketAddr) -> bool { self.inner.accept(tcp, addr) }
+    fn on_datagram(&mut self, conn: &crate::vnet::ConnInfo, data: &[u8]) -> Vec<Vec<u8>> {
+        let n = self.seen;
+        self.seen += 1;
+        if let Some(f) = &self.frozen {
+            return f.clone();
+        }
+        let r = self.inner.on_datagram(conn, data);
+        if n >= self.k && !r.is_empty() {
+            self.frozen = Some(r.clone());
+        }
+        r
+    }
+    fn stream(&mut self, conn: &crate::vnet::ConnInfo) -> Option<Vec<u8>> { self.inner.stream(conn) }
+}
+
+fn full_family(t: &Target) -> bool { !matches!(t.family, Family::Java | Family::Legacy(_) | Family::McLegacyAuto) }
